@@ -244,3 +244,10 @@ Definition check_err (a b : term) (vs : list N) (o : impl_out) : bool :=
             | None => false
             end
   end.
+
+(* monomorphic list constructors: the generated correspondence cases are elaborated much faster
+   without polymorphic list notations *)
+Definition tn : list term := [].
+Definition tc (x : term) (l : list term) : list term := x :: l.
+Definition nn : list N := [].
+Definition nc (x : N) (l : list N) : list N := x :: l.
